@@ -618,6 +618,10 @@ struct Extractor {
             if (P->getType()->isReferenceType() && P->getType().getNonReferenceType().isConstQualified())
               J.attribute("constref", true);
             if (P->isParameterPack()) J.attribute("pack", true);
+            if (P->hasDefaultArg() && !P->hasUnparsedDefaultArg()) {
+              const Expr *DA = P->hasUninstantiatedDefaultArg() ? P->getUninstantiatedDefaultArg() : P->getDefaultArg();
+              if (DA) child(J, "default", DA);
+            }
           });
         }
       });
